@@ -77,8 +77,10 @@ def cuts(rnd, data, forced=(), nocut=()):
 
 
 # commands that read their argument key themselves (outside the model): oracle across chunkings only
-ARG_EMACS = [[0x11, ord("x")], [0x16, ord("\t")], [0x1D, ord("o")]]      # C-q x, C-v TAB, C-] o (character-search)
-ARG_VI = [[ord("f"), ord("o")], [ord("t"), ord(" ")], [ord("r"), ord("z")], [ord("F"), ord("h")]]
+ARG_EMACS = [[0x11, ord("x")], [0x16, ord("\t")], [0x1D, ord("o")],      # C-q x, C-v TAB, C-] o (character-search)
+             [0x11] + list("€".encode()), [0x16] + list("世".encode()), [0x1D] + list("€".encode())]
+ARG_VI = [[ord("f"), ord("o")], [ord("t"), ord(" ")], [ord("r"), ord("z")], [ord("F"), ord("h")],
+          [ord("f")] + list("€".encode()), [ord("r")] + list("世".encode()), [ord("F")] + list("€".encode())]
 
 
 def check(rep, tier, seed):
@@ -94,7 +96,7 @@ def check(rep, tier, seed):
     for i in range(nscripts):
         vi = rnd.random() < 0.3
         data, forced, nocut, modelled_script = [], set(), set(), True
-        text = rnd.choice(["hello world", "ls -la /tmp", "a b c", "foo.bar baz", "x"])
+        text = rnd.choice(["hello world", "ls -la /tmp", "a b c", "foo.bar baz", "x", "日本 €x 😀", "a€ 世b"])
         data += list(text.encode())
         if vi:
             data.append(27)
